@@ -29,6 +29,9 @@ def load_known():
     return out
 
 
+# checker files of OTHER properties that a property's case evaluation imports
+EXTRA_TARGETS = {'C12': ['Check/C14Check.v']}
+
 class Check:
     def __init__(self, cid, tier, seed):
         self.cid = cid
@@ -71,7 +74,7 @@ class Check:
         # the property's theorems, what the caller asks for, and every checker file of the property
         # (so that a check also works on a tree where only part of the development has been built)
         tg = ['Props/%s.v' % self.cid] + list(targets or [])
-        for r in roots:
+        for r in roots + EXTRA_TARGETS.get(self.cid, []):
             if r.startswith('Check/') and r not in tg:
                 tg.append(r)
         ok, out = coqio.build(tg)
